@@ -584,7 +584,8 @@ def r11_17(run, model):
     pf = model.fn("file", FILE)
     premise = any(True for _ in S.calls(pf.body, "expr"))
     lf = model.fn("lower", LOWER)
-    body = S.norm_ws(run.facts.text(LOWER, lf.body["sp"]))
+    # `lower` and the same-file helpers it calls (a wrapper that delegates to `lower_with_options` is still the lowering of a file)
+    body = " ".join(S.norm_ws(run.facts.text(LOWER, g.body["sp"])) for g in model.scope_fns(lf) if g.body is not None)
     handled = re.search(r"Expr::can_cast|cst::Expr::cast|\.exprs\(\)", body) is not None and ("push_error" in body or "lower_expr" in body)
     run.ob("R11.17", "lower|an expression at file level is lowered or reported", (not premise) or handled, site(LOWER, lf.node["sp"]),
            f"the file-level grammar parses expressions: {premise}; the lowering looks at them: {handled}",
